@@ -107,9 +107,15 @@ func oneLine(s string) string {
 }
 
 func (o *Out) emit(st *Stats, f Family, i int, op string) {
-	obs, fails := f.Exec(op)
+	// the operation is on disk before it runs: if it kills the process (os.Exit in the code under
+	// test), the last line of ops.txt names it
 	fmt.Fprintln(o.ops, oneLine(op))
+	o.ops.Flush()
+	obs, fails := f.Exec(op)
 	fmt.Fprintln(o.impl, oneLine(obs))
+	if i%64 == 0 {
+		o.impl.Flush()
+	}
 	st.Record(f, op, obs)
 	for _, fl := range fails {
 		fl.Index, fl.Op = i, op
